@@ -36,6 +36,7 @@ type KnownFinding struct {
 	Property string `json:"property"`
 	Rule     string `json:"rule"`
 	Key      string `json:"key"`
+	CKey     string `json:"ckey,omitempty"` // canonical form of the key (canon.go): what is compared when present
 	Status   string `json:"status"` // "open" or "fixed"
 	Commit   string `json:"commit,omitempty"`
 	What     string `json:"what"`
@@ -193,7 +194,7 @@ func (r *Report) Finish(verifDir string, seed int, cmdline string) int {
 		matched := false
 		if o.Status == Violated {
 			for _, k := range known {
-				if k.Status == "open" && k.Property == o.Property && k.Rule == o.Rule && k.Key == o.Key {
+				if k.Status == "open" && k.Property == o.Property && k.Rule == o.Rule && (k.Key == o.Key || (k.CKey != "" && k.CKey == o.Key)) {
 					matched = true
 					o.Known = true
 					lines = append(lines, fmt.Sprintf("KNOWN-FINDING: property=%s %s [%s %s at %s]", o.Property, k.What, o.Rule, o.Key, o.Pos))
